@@ -48,6 +48,22 @@ func VerifServerStreamCounts() []int {
 	return out
 }
 
+// VerifServerUnaryTracked returns, per Serve call since the last reset, the
+// number of unary handlers whose cancel function is registered with the
+// connection (read under the handler's own lock).
+func VerifServerUnaryTracked() []int {
+	verifHandlers.Lock()
+	hs := append([]*handler(nil), verifHandlers.list...)
+	verifHandlers.Unlock()
+	out := make([]int, len(hs))
+	for i, h := range hs {
+		h.unaryMu.Lock()
+		out[i] = len(h.unaryCancels)
+		h.unaryMu.Unlock()
+	}
+	return out
+}
+
 // VerifClientRegistrySize is the number of calls registered on the connection.
 func VerifClientRegistrySize(cc *ClientConn) int { return cc.mp.VerifRegistrySize() }
 
